@@ -464,6 +464,12 @@ func (e *Enforcer) loadFilteredPolicy(filter interface{}) error {
 
 // LoadFilteredPolicy reloads a filtered policy from file/database.
 func (e *Enforcer) LoadFilteredPolicy(filter interface{}) error {
+	// refuse before clearing: with an adapter that cannot filter, the model would be emptied
+	// for nothing, and a SavePolicy after the error would write the empty policy over the store
+	if _, ok := e.adapter.(persist.FilteredAdapter); !ok {
+		return errors.New("filtered policies are not supported by this adapter")
+	}
+
 	e.model.ClearPolicy()
 
 	return e.loadFilteredPolicy(filter)
